@@ -441,6 +441,17 @@ impl PacketReceiver {
     }
 }
 
+#[cfg(uflow_verif)]
+impl PacketReceiver {
+    /// (base_id, end_id, assembly alloc, assembly max_alloc, assembly buffer bytes, undelivered payload bytes held in
+    /// data entries, ready flags, window ready flag)
+    pub fn verif_probe(&self) -> (u32, u32, usize, usize, usize, usize, u64, bool) {
+        let (alloc, max_alloc, asm_held) = self.assembly_window.verif_probe();
+        let data_held = self.data_entries.iter().map(|e| e.data.as_ref().map_or(0, |d| d.len())).sum();
+        (self.base_id, self.end_id, alloc, max_alloc, asm_held, data_held, self.channel_ready_flags, self.window_ready_flag)
+    }
+}
+
 #[cfg(test)]
 mod tests {
     use super::*;
